@@ -2,6 +2,8 @@ SPECIFICATION Spec
 CONSTANTS
   MaxLeaves = 4
   Xfs = {"I", "T"}
+  Order = "dfs"
 INVARIANT EachLeafOnce
 INVARIANT ZOrderWhenFlat
+INVARIANT ZOrder
 INVARIANT Export
